@@ -15604,6 +15604,13 @@ impl<
 		payer_note: Option<String>, payment_id: PaymentId,
 		human_readable_name: Option<HumanReadableName>, create_pending_payment: CPP,
 	) -> Result<(), Bolt12SemanticError> {
+		// The pending payment is only created below, after the invoice request has been enqueued. Refuse a
+		// duplicate `payment_id` up front so that a call we are going to refuse does not send an invoice request
+		// (whose invoice would then be paid under the id of the earlier, unrelated call).
+		if self.pending_outbound_payments.is_payment_id_in_use(payment_id) {
+			return Err(Bolt12SemanticError::DuplicatePaymentId);
+		}
+
 		let entropy = &self.entropy_source;
 		let nonce = Nonce::from_entropy_source(entropy);
 
